@@ -1,11 +1,11 @@
 #!/bin/bash
-# collect_seed.sh <ID>: copy /tmp/wt-<ID>/_seed to seeded/<ID>-a, remove worktree
-id=$1
+# collect_seed.sh <ID> [suffix]: copy /tmp/wt-<ID>/_seed to seeded/<ID>-<suffix|a>, remove the worktree
+id=$1; suf=${2:-a}
 src=/tmp/wt-$id/_seed
 [ -d $src ] || { echo "no $src"; exit 1; }
-mkdir -p /verif/seeded/$id-a
-cp $src/* /verif/seeded/$id-a/
+mkdir -p /verif/seeded/$id-$suf
+cp $src/patch.diff $src/meta.json $src/demo_path.txt /verif/seeded/$id-$suf/ 2>/dev/null
+cp $src/*_test.go /verif/seeded/$id-$suf/ 2>/dev/null
 git -C /repo worktree remove --force /tmp/wt-$id
 git -C /repo worktree prune
-ls /verif/seeded/$id-a
-git -C /repo status --short | head
+ls /verif/seeded/$id-$suf
